@@ -139,7 +139,7 @@ def handle (args : List String) : Option String :=
     some <| triple <| match rMembers ms with
       | none => "bad-wire"
       | some ms =>
-        match expandApkG Generated.prefixGuards_expandNext Generated.expandCases ms with
+        match expandApkG Generated.prefixGuards_expandNext Generated.expandCases expandDataFlag ms with
         | none => "hang"
         | some r => showR (fun (s, _) => s!"ok signed={s}") r
   | ["x.idxarch", gz, es, fin] =>
